@@ -1118,7 +1118,12 @@ impl CommandExecutor for DrawExecutor {
                 Ok(CallbackAction::Update)
             }
 
-            IgsCommands::TimeAPause => Ok(CallbackAction::Pause(1000 * parameters[0] as u32)),
+            IgsCommands::TimeAPause => {
+                if parameters.len() != 1 {
+                    return Err(anyhow::anyhow!("TimeAPause command requires 1 argument"));
+                }
+                Ok(CallbackAction::Pause(1000 * parameters[0] as u32))
+            }
 
             IgsCommands::PolymarkerPlot => {
                 if parameters.len() != 2 {
